@@ -358,3 +358,73 @@ def shared_child_spec():
     full = {nm: 1.0 for nm in names}
     teams = [{"name": "TM0", "targets": [0, 1, 2, 3, 4], "workers": [{"name": "W0", "skills": dict(full), "cost": 1.0}, {"name": "W1", "skills": dict(full), "cost": 2.0}]}]
     return {"tasks": tasks, "links": links, "components": comps, "teams": teams, "label": "shared-child"}
+
+
+def double_link_specs():
+    """the same predecessor linked twice with different kinds (the classic SS+FF pair), both orders of declaration"""
+    out = []
+    for kinds in (("SS", "FF"), ("FF", "SS"), ("FS", "FF"), ("SS", "SF"), ("SF", "SS")):
+        for wv in ((3.0, 1.0), (1.0, 3.0), (2.0, 2.0)):
+            tasks = [{"name": "T0", "work": 1.0}, {"name": "T1", "work": wv[0]}, {"name": "T2", "work": wv[1]}]
+            links = [[0, 1, "FS"], [1, 2, kinds[0]], [1, 2, kinds[1]]]
+            for lay in ("DED", "POOL2"):
+                sp = with_teams({"tasks": tasks, "links": links}, lay)
+                sp["label"] = "double-link:%s+%s" % kinds
+                out.append(sp)
+    return out
+
+
+def team_hierarchy_spec(rates=(7.0, 3.0, 2.0)):
+    """division > department > section, one worker and one task each"""
+    tasks = [{"name": "T0", "work": 2.0}, {"name": "T1", "work": 3.0}, {"name": "T2", "work": 4.0}]
+    teams = [{"name": "DIV", "targets": [0], "workers": [{"name": "W0", "skills": {"T0": 1.0}, "cost": rates[0]}]},
+             {"name": "DEP", "targets": [1], "parent": 0, "workers": [{"name": "W1", "skills": {"T1": 1.0}, "cost": rates[1]}]},
+             {"name": "SEC", "targets": [2], "parent": 1, "workers": [{"name": "W2", "skills": {"T2": 1.0}, "cost": rates[2]}]}]
+    wps = [{"name": "SITE", "cap": 4.0, "targets": [], "facilities": []},
+           {"name": "HALL", "cap": 2.0, "targets": [], "parent": 0, "facilities": [{"name": "F0", "skills": {}, "cost": 1.0}]},
+           {"name": "BAY", "cap": 1.0, "targets": [], "parent": 1, "facilities": [{"name": "F1", "skills": {}, "cost": 2.0}]}]
+    return {"tasks": tasks, "links": [], "teams": teams, "workplaces": wps, "label": "team-hierarchy"}
+
+
+def three_level_product_specs():
+    """part C -> sub-assembly P -> final assembly G, each processed in its own workplace before the next level is assembled"""
+    out = []
+    for cap_asm in (3.0, 1.0):
+        names = ["T0", "T1", "T2", "T3"]
+        tasks = [{"name": "T0", "work": 1.0, "nf": True}, {"name": "T1", "work": 1.0, "nf": True}, {"name": "T2", "work": 2.0, "nf": True}, {"name": "T3", "work": 1.0, "nf": True}]
+        links = [[0, 1, "FS"], [1, 2, "FS"], [2, 3, "FS"]]
+        comps = [{"name": "G", "tasks": [2, 3], "children": [1]}, {"name": "P", "tasks": [1], "children": [2]}, {"name": "C", "tasks": [0]}]
+        full = {nm: 1.0 for nm in names}
+        wps = [{"name": "WPART", "cap": 3.0, "targets": [0], "facilities": [{"name": "F0", "skills": dict(full)}]},
+               {"name": "WSUB", "cap": 3.0, "targets": [1], "facilities": [{"name": "F1", "skills": dict(full)}]},
+               {"name": "WASM", "cap": cap_asm, "targets": [2], "facilities": [{"name": "F2", "skills": dict(full)}]},
+               {"name": "WPAINT", "cap": 3.0, "targets": [3], "facilities": [{"name": "F3", "skills": dict(full)}]}]
+        teams = [{"name": "TM0", "targets": [0, 1, 2, 3], "workers": [{"name": "W0", "skills": dict(full), "fskills": {"F0": 1.0, "F1": 1.0, "F2": 1.0, "F3": 1.0}}]}]
+        out.append({"tasks": tasks, "links": links, "components": comps, "workplaces": wps, "teams": teams, "label": "three-level:%s" % cap_asm})
+    return out
+
+
+def many_components_spec(k):
+    """k task-less or simultaneously finishing components listed consecutively, followed by one whose task starts in that step"""
+    tasks = [{"name": "T%d" % i, "work": 1.0} for i in range(k)] + [{"name": "T%d" % k, "work": 2.0}]
+    links = [[0, k, "FS"]]
+    comps = [{"name": "C%d" % i, "tasks": [i]} for i in range(k)] + [{"name": "C%d" % k, "tasks": [k]}]
+    names = [t["name"] for t in tasks]
+    teams = [{"name": "TM0", "targets": list(range(k + 1)), "workers": [{"name": "W%d" % i, "skills": {names[i]: 1.0}} for i in range(k + 1)]}]
+    return {"tasks": tasks, "links": links, "components": comps, "teams": teams, "label": "many-components:%d" % k}
+
+
+def idle_component_spec():
+    """component c carries the first and the last task of a chain; it is idle while another component's task runs"""
+    tasks = [{"name": "T0", "work": 2.0}, {"name": "T1", "work": 3.0}, {"name": "T2", "work": 2.0}]
+    links = [[0, 1, "FS"], [1, 2, "FS"]]
+    comps = [{"name": "C0", "tasks": [0, 2]}, {"name": "CX", "tasks": [1]}]
+    return with_teams({"tasks": tasks, "links": links, "components": comps, "label": "idle-component"}, "POOL1")
+
+
+def float_noise_spec():
+    """work 0.3 done at 0.1 per step (remaining work hits -2.8e-17), then kept WORKING by an FF input"""
+    tasks = [{"name": "T0", "work": 6.0}, {"name": "T1", "work": 0.3}, {"name": "T2", "work": 0.7}]
+    links = [[0, 1, "FF"], [0, 2, "FF"]]
+    teams = [{"name": "TM0", "targets": [0, 1, 2], "workers": [{"name": "W0", "skills": {"T0": 1.0}, "cost": 1.0}, {"name": "W1", "skills": {"T1": 0.1}, "cost": 1.0}, {"name": "W2", "skills": {"T2": 0.1}, "cost": 1.0}]}]
+    return {"tasks": tasks, "links": links, "teams": teams, "label": "float-noise"}
